@@ -46,6 +46,9 @@ def correspondence(ctx):
         for lab in ([0x628] + run + [0x200C, 0x628], [0x628, 0x200C] + run + [0x628], [0x628, 0x200C] + run, run + [0x200C, 0x628]):
             cases.append(f'allows.ff|{hexs(lab)}')
             cases.append(f'allows.id|{hexs(lab)}')
+    for s_ in structured_strings(ctx, 600 if ctx.tier == 'quick' else 8000, ['filler_ascii', 'filler_2', 'filler_3', 'filler_4', 'ctx', 'ctx', 'ctx', 'ctx_partner', 'marks', 'rtl', 'bad', 'compat']):
+        cases.append(f'allows.id|{hexs(s_)}')
+        cases.append(f'allows.ff|{hexs(s_)}')
     cases += fuzz_cases(ctx, {8, 9})      # coverage-guided search of the tree under check (only when the source changed / thorough)
     res = run_cases(cases, ctx.work)
 
